@@ -49,6 +49,7 @@ type Profile struct {
 	CharAlt    int  // percentage of choices built from single-character literals and small classes over a shared alphabet
 	ThrowIdiom int  // percentage of rules built as labelled-failure idioms (guarded items in sequence / nested)
 	ScanPct    int  // percentage of grammars wrapped in a scanning start rule S <- (v:R0 w:. {..} / .)*
+	PredAct    int  // percentage of & and ! predicates whose operand is wrapped in an action
 	InitPct    int  // percentage of cases (on templates with a state store) run with InitState options
 	JoinWords  int  // percentage of literals (and classes) spelled like the separators of the expected list: ", "  " or "
 	NotShare   int  // percentage of choices of the form !R x / R y (or R y / !R x): one rule evaluated at one offset inside and outside a negative predicate
@@ -103,7 +104,7 @@ type gctx struct {
 }
 
 var asciiAlpha = []string{"a", "b", "c", "A", "B", "x", "+", "1", "\n", " "}
-var nonAsciiAlpha = []string{"é", "K", "k", "K", "�", "ß", "Σ", "σ", "ς", "\U0001F600"}
+var nonAsciiAlpha = []string{"é", "K", "k", "K", "�", "ß", "Σ", "σ", "ς", "\U0001F600", "\ufeff", "\u0301", "\u200d"}
 var labelNames = []string{"x", "y", "z"}
 var stateKeys = []string{"k", "m"}
 var failLabels = []string{"e1", "e2"}
@@ -407,6 +408,13 @@ func (g *gctx) genExpr(depth int) *Node {
 	case KStar, KPlus, KOpt, KAnd, KNot:
 		n := g.newNode(k)
 		n.Kids = []*Node{g.genExpr(depth + 1)}
+		if (k == KAnd || k == KNot) && g.p.Blocks && g.p.PredAct > 0 && g.pct(g.p.PredAct) && n.Kids[0].K != KAct {
+			// an action directly under a predicate: it runs although its value is thrown away
+			a := g.newNode(KAct)
+			a.Cid = g.newBlock(KAct)
+			a.Kids = []*Node{n.Kids[0]}
+			n.Kids[0] = a
+		}
 		return n
 	case KLab:
 		n := g.newNode(KLab)
